@@ -352,6 +352,8 @@ impl<'de, R: Reader<'de>> Parser<R> {
         ensures final(self).pinv(), final(self).same_doc(old(self)), final(self).same_cache(old(self)), final(self).read.idx() >= old(self).read.idx(),
             // stops just after the closing bracket of the scalar definition, or fails if the input has none
             skip_container_post(old(self).read.data(), old(self).read.idx() as int, final(self).read.idx() as int, res.is_ok(), left, right),
+            // every error is made by Parser::error: positioned inside the input (C20)
+            res.is_err() ==> err_ok(res->Err_0, old(self).read.data()),
 //@before /let mut prev_instring = 0;/
         let ghost s = self.read.data();
         let ghost b = self.read.idx() as int;
